@@ -53,6 +53,114 @@ template <typename Map> void splice_map_entries(Map &from, Map &to) {
         to.insert(std::move(node));
     }
 }
+// メソッド終了時の self -> レシーバー書き戻しの補助 (1/2)。
+// self.in.a = v / self.ys[i] = v は個別変数 ("self.in.a", "self.ys[i]") を
+// 更新するので、書き戻しの前に self.struct_members と "self.in" などを
+// 個別変数の最新値に合わせておく（古い "self.in" でネストした値が
+// 上書きされていた）
+void sync_self_before_writeback(Interpreter &interpreter) {
+    Variable *self_var = interpreter.find_variable("self");
+    if (self_var && self_var->is_struct) {
+        interpreter.sync_struct_members_from_direct_access("self");
+    }
+}
+
+// メソッド終了時の self -> レシーバー書き戻しの補助 (2/2)。
+// 既存の書き戻しはスカラー値しかレシーバーの個別変数へコピーしないので、
+// 書き戻し後の receiver_var->struct_members から
+//  - プリミティブ配列メンバーの個別変数 ("c.ys", "c.ys[i]")
+//  - ネストした構造体メンバーの個別変数 ("c.in.a", "c.mid.in.a")
+// を更新する
+void write_back_self_compound_members(Interpreter &interpreter,
+                                      Variable *receiver_var,
+                                      const std::string &receiver_name,
+                                      bool receiver_is_dereferenced) {
+    if (!receiver_var) {
+        return;
+    }
+    // ポインタ経由 (p->method()) の場合 receiver_name はポインタ変数の名前
+    // なので、実体の変数名をアドレスから解決する（ヒープ上の構造体は名前なし）
+    std::string base_name =
+        receiver_is_dereferenced
+            ? interpreter.find_variable_name_by_address(receiver_var)
+            : receiver_name;
+    if (base_name.empty()) {
+        return;
+    }
+
+    for (auto &member_pair : receiver_var->struct_members) {
+        const std::string &member_name = member_pair.first;
+        Variable &member = member_pair.second;
+        if (member_name.find('[') != std::string::npos) {
+            continue; // "ys[0]" のような要素キー
+        }
+        const std::string direct_name = base_name + "." + member_name;
+
+        if (member.is_struct && !member.is_array &&
+            !member.struct_members.empty()) {
+            // ネストした構造体メンバー: o2 = o1 と同じ再帰的な展開
+            if (interpreter.find_variable(direct_name)) {
+                Variable member_copy = member;
+                interpreter.sync_direct_access_from_struct_value(direct_name,
+                                                                 member_copy);
+            }
+            continue;
+        }
+
+        if (!member.is_array || member.is_struct ||
+            member.type == TYPE_STRUCT || !member.struct_type_name.empty() ||
+            member.is_pointer) {
+            continue;
+        }
+
+        // プリミティブ配列メンバー
+        Variable *direct_array = interpreter.find_variable(direct_name);
+        if (direct_array && direct_array != &member) {
+            direct_array->array_values = member.array_values;
+            direct_array->array_float_values = member.array_float_values;
+            direct_array->array_double_values = member.array_double_values;
+            direct_array->array_quad_values = member.array_quad_values;
+            direct_array->array_strings = member.array_strings;
+            direct_array->multidim_array_values = member.multidim_array_values;
+            direct_array->multidim_array_float_values =
+                member.multidim_array_float_values;
+            direct_array->multidim_array_double_values =
+                member.multidim_array_double_values;
+            direct_array->multidim_array_quad_values =
+                member.multidim_array_quad_values;
+            direct_array->multidim_array_strings =
+                member.multidim_array_strings;
+        }
+        if (member.is_multidimensional) {
+            continue; // 要素変数は1次元配列のみ
+        }
+        for (int i = 0; i < member.array_size; ++i) {
+            Variable *element = interpreter.find_variable(
+                direct_name + "[" + std::to_string(i) + "]");
+            if (!element || element->is_struct) {
+                continue;
+            }
+            const size_t idx = static_cast<size_t>(i);
+            if (element->type == TYPE_STRING) {
+                if (idx < member.array_strings.size()) {
+                    element->str_value = member.array_strings[idx];
+                }
+            } else if (idx < member.array_values.size()) {
+                element->value = member.array_values[idx];
+                if (idx < member.array_float_values.size()) {
+                    element->float_value = member.array_float_values[idx];
+                }
+                if (idx < member.array_double_values.size()) {
+                    element->double_value = member.array_double_values[idx];
+                }
+                if (idx < member.array_quad_values.size()) {
+                    element->quad_value = member.array_quad_values[idx];
+                }
+            }
+            element->is_assigned = true;
+        }
+    }
+}
 } // namespace
 
 int64_t ExpressionEvaluator::evaluate_function_call_impl(const ASTNode *node) {
@@ -4589,11 +4697,33 @@ int64_t ExpressionEvaluator::evaluate_function_call_impl(const ASTNode *node) {
                         if (Variable *nested_direct_var =
                                 interpreter_.find_variable(
                                     nested_receiver_path)) {
-                            nested_member_value = *nested_direct_var;
+                            if (nested_direct_var->is_struct &&
+                                !nested_direct_var->is_array) {
+                                // 2段目以降のネスト (c.mid.in.a) の最新値を
+                                // c.mid.in の struct_members に反映してから
+                                // コピーする
+                                interpreter_
+                                    .sync_struct_members_from_direct_access(
+                                        nested_receiver_path);
+                                nested_direct_var = interpreter_.find_variable(
+                                    nested_receiver_path);
+                            }
+                            if (nested_direct_var) {
+                                nested_member_value = *nested_direct_var;
+                            }
                         }
 
                         current_scope.variables[nested_self_path] =
                             nested_member_value;
+
+                        // さらに深いネスト (self.mid.in.a) の個別変数も作成
+                        if (nested_member_value.is_struct &&
+                            !nested_member_value.is_array &&
+                            !nested_member_value.struct_members.empty()) {
+                            Variable nested_copy = nested_member_value;
+                            interpreter_.sync_direct_access_from_struct_value(
+                                nested_self_path, nested_copy);
+                        }
                         {
                             char dbg_buf[512];
                             snprintf(
@@ -6179,6 +6309,10 @@ int64_t ExpressionEvaluator::evaluate_function_call_impl(const ASTNode *node) {
 
                 if (receiver_var && (receiver_var->type == TYPE_STRUCT ||
                                      receiver_var->type == TYPE_INTERFACE)) {
+                    // self の個別変数 (self.in.a, self.ys[i]) への書き込みを
+                    // self.struct_members / "self.in" に反映してからマージする
+                    sync_self_before_writeback(interpreter_);
+
                     // v0.13.0:
                     // まず、全てのself.member変数をself.struct_membersにマージ
                     auto &current_scope = interpreter_.get_current_scope();
@@ -6318,6 +6452,11 @@ int64_t ExpressionEvaluator::evaluate_function_call_impl(const ASTNode *node) {
                             }
                         }
                     }
+
+                    // 配列メンバーとネストした構造体メンバーの個別変数も更新
+                    write_back_self_compound_members(
+                        interpreter_, receiver_var, receiver_name,
+                        used_resolution_ptr && dereferenced_struct_ptr);
                 }
             }
 
@@ -6362,6 +6501,34 @@ int64_t ExpressionEvaluator::evaluate_function_call_impl(const ASTNode *node) {
                                 receiver_var_for_parent->big_value;
 
                             // parent scopeのself.member変数も更新
+                            std::function<void(const std::string &,
+                                               const Variable &)>
+                                refresh_parent_nested =
+                                    [&](const std::string &base_name,
+                                        const Variable &struct_value) {
+                                        if (!struct_value.is_struct ||
+                                            struct_value.is_array) {
+                                            return;
+                                        }
+                                        for (const auto &nested_pair :
+                                             struct_value.struct_members) {
+                                            std::string nested_name =
+                                                base_name + "." +
+                                                nested_pair.first;
+                                            auto nested_it =
+                                                parent_scope.variables.find(
+                                                    nested_name);
+                                            if (nested_it ==
+                                                parent_scope.variables.end()) {
+                                                continue;
+                                            }
+                                            nested_it->second =
+                                                nested_pair.second;
+                                            refresh_parent_nested(
+                                                nested_name,
+                                                nested_pair.second);
+                                        }
+                                    };
                             for (const auto &member_pair :
                                  parent_self.struct_members) {
                                 const std::string &member_name =
@@ -6373,6 +6540,9 @@ int64_t ExpressionEvaluator::evaluate_function_call_impl(const ASTNode *node) {
                                     parent_scope.variables.end()) {
                                     parent_scope.variables[var_name] =
                                         member_var;
+                                    // ネストした構造体メンバーの個別変数
+                                    // (self.in.a など) も更新
+                                    refresh_parent_nested(var_name, member_var);
                                 }
                             }
                         }
@@ -6654,6 +6824,10 @@ int64_t ExpressionEvaluator::evaluate_function_call_impl(const ASTNode *node) {
 
                 if (receiver_var && (receiver_var->type == TYPE_STRUCT ||
                                      receiver_var->type == TYPE_INTERFACE)) {
+                    // self の個別変数 (self.in.a, self.ys[i]) への書き込みを
+                    // self.struct_members / "self.in" に反映してからマージする
+                    sync_self_before_writeback(interpreter_);
+
                     // v0.13.0:
                     // まず、全てのself.member変数をself.struct_membersにマージ
                     auto &current_scope = interpreter_.get_current_scope();
@@ -6793,6 +6967,11 @@ int64_t ExpressionEvaluator::evaluate_function_call_impl(const ASTNode *node) {
                             }
                         }
                     }
+
+                    // 配列メンバーとネストした構造体メンバーの個別変数も更新
+                    write_back_self_compound_members(
+                        interpreter_, receiver_var, receiver_name,
+                        used_resolution_ptr && dereferenced_struct_ptr);
                 }
             }
 
